@@ -40,19 +40,27 @@ Connector::~Connector()
 void Connector::start()
 {
   connect_ = true;
-  loop_->runInLoop(std::bind(&Connector::startInLoop, this)); // FIXME: unsafe
+  loop_->runInLoop(std::bind(&Connector::startCycleInLoop, this)); // FIXME: unsafe
+}
+
+void Connector::startCycleInLoop()
+{
+  loop_->assertInLoopThread();
+  // A connect() cycle begins.  Forget what the previous one left behind: the
+  // kConnected state of a socket that was handed over as a connection, and the
+  // retry delay that cycle had reached (however it ended: connection, stop(),
+  // or an error that is not retried).
+  if (state_ == kConnected)
+  {
+    setState(kDisconnected);
+  }
+  retryDelayMs_ = kInitRetryDelayMs;
+  startInLoop();
 }
 
 void Connector::startInLoop()
 {
   loop_->assertInLoopThread();
-  if (state_ == kConnected)
-  {
-    // the socket of the previous cycle was handed over as a connection:
-    // a new connect() cycle starts from a clean state and the initial delay
-    setState(kDisconnected);
-    retryDelayMs_ = kInitRetryDelayMs;
-  }
   assert(state_ == kDisconnected);
   if (connect_)
   {
